@@ -138,7 +138,7 @@ impl CharacterClassRegistry {
 UNIT = dict(
     name='u_build',
     externs=glue.UNIT['externs'],
-    header=glue.UNIT['header'] + 'use std::sync::Arc;\nuse regex_syntax::ast::{ClassSet, ClassSetBinaryOp, ClassSetBinaryOpKind, ClassSetItem, ClassSetRange, ClassSetUnion, LiteralKind, ClassAscii, HexLiteralKind, SpecialLiteralKind};\n',
+    header=glue.UNIT['header'] + 'use std::sync::Arc;\nuse regex_syntax::ast::{ClassSet, ClassSetBinaryOp, ClassSetBinaryOpKind, ClassSetItem, ClassSetRange, ClassSetUnion, LiteralKind, ClassAscii, ClassAsciiKind, ClassPerlKind, HexLiteralKind, SpecialLiteralKind};\n',
     generic_types=[('ScannerImpl', 'M', 'Fn(CharClassID, char) -> bool')],
     items=items,
 )
